@@ -9,6 +9,7 @@ Check(i) == LET o == Obs[i] IN
    /\ Chk(RulesUnchanged(o), "C19", "DefaultRulesUnchanged", o)
    /\ Chk(ObservesOnly(o), "C19", "ObservesOnly", o)
    /\ Chk(Repeatable(o), "C19", "Repeatable", o)
+   /\ Chk(CustomRepeatable(o), "C19", "Repeatable", o)
    /\ Chk(CustomPrivate(o), "C19", "CustomRulesStayPrivate", o)
    /\ Chk(CustomApplied(o), "C19", "CustomRulesAppliedByTheirInstanceOnly", o)
 JInit == l = 1
